@@ -748,7 +748,7 @@ func BuildFromAliasedTable(query *Query, as string, expr sqlparser.SimpleTableEx
 			if err != nil {
 				return err
 			}
-			data, err := subquery.exec()
+			data, err := subquery.execNested()
 			if err != nil {
 				return err
 			}
@@ -1576,7 +1576,7 @@ func SubqueryExpr(query *Query, current Map, expr *sqlparser.Subquery, opts ...E
 	if err != nil {
 		return nil, err
 	}
-	rs, err := subQuery.exec()
+	rs, err := subQuery.execNested()
 	if err != nil {
 		return nil, err
 	}
@@ -1645,7 +1645,7 @@ func ExistExpr(query *Query, current Map, expr *sqlparser.ExistsExpr, opts ...Ex
 		from[i] = merged
 	}
 	q.from = from
-	rs, err := q.exec()
+	rs, err := q.execNested()
 	if err != nil {
 		return false, err
 	}
@@ -2228,7 +2228,7 @@ func (query *Query) exec() (result any, err error) {
 				copy := CopyQuery(query)
 				copy.from = current
 				pending := len(copy.postProcessors)
-				rs, err := copy.exec()
+				rs, err := copy.execNested()
 				if err != nil {
 					return nil, err
 				}
@@ -2303,6 +2303,19 @@ func (query *Query) exec() (result any, err error) {
 FINALIZE:
 	if query.options.completed != nil {
 		query.options.completed()
+	}
+	return rs, nil
+}
+
+// execNested runs a query that is part of another one (a derived table, a
+// subquery, an inner dimension): when it fails, the background calls it has
+// started are not left running behind the failure - nobody else holds its wait
+// group
+func (query *Query) execNested() (any, error) {
+	rs, err := query.exec()
+	if err != nil {
+		query.wg.Wait()
+		return nil, err
 	}
 	return rs, nil
 }
